@@ -46,34 +46,34 @@ var eventShapes = map[string][2]string{
 
 // replyShapes: shape -> raw response payload.
 var replyShapes = map[string]string{
-	"both":              `{"result":{"model":{"x":1},"collection":[1]}}`,
-	"neither":           `{"result":{}}`,
-	"noresult":          `{}`,
-	"badjson":           `{"result":`,
-	"empty":             ``,
-	"null-result":       `{"result":null}`,
-	"model-badvalue":    `{"result":{"model":{"k":[1]}}}`,
-	"model-objvalue":    `{"result":{"model":{"a":1,"k":{"x":1}}}}`,
-	"coll-delete":       `{"result":{"collection":[1,{"action":"delete"}]}}`,
-	"model-array":       `{"result":{"model":[1]}}`,
-	"coll-object":       `{"result":{"collection":{"a":1}}}`,
-	"model-emptyrid":    `{"result":{"model":{"k":{"rid":""}}}}`,
-	"model-wildrid":     `{"result":{"model":{"k":{"rid":"a.>"}}}}`,
-	"error-nocode":      `{"error":{"message":"x"}}`,
-	"error-string":      `{"error":"boom"}`,
-	"get-string":        `{"result":{"get":"yes"}}`,
-	"result-array":      `{"result":[1]}`,
-	"resource-badrid":   `{"resource":{"rid":"a..b"}}`,
-	"resource-empty":    `{"resource":{"rid":""}}`,
-	"resource-wild":     `{"resource":{"rid":"a.*"}}`,
-	"resource-num":      `{"resource":{"rid":12}}`,
-	"events-notarray":   `{"result":{"events":{}}}`,
-	"events-badevent":   `{"result":{"events":[{"event":"add","data":{"idx":99,"value":1}}]}}`,
-	"events-badchange":  `{"result":{"events":[{"event":"change","data":{"values":{"a1":"changed","zbad":[1]}}}]}}`,
-	"events-and-model":  `{"result":{"events":[],"model":{"a":1}}}`,
-	"meta-string":       `{"result":{"get":true},"meta":"x"}`,
-	"meta-status-str":   `{"result":{"get":true},"meta":{"status":"404"}}`,
-	"meta-header-str":   `{"result":{"get":true},"meta":{"header":"x"}}`,
+	"both":             `{"result":{"model":{"x":1},"collection":[1]}}`,
+	"neither":          `{"result":{}}`,
+	"noresult":         `{}`,
+	"badjson":          `{"result":`,
+	"empty":            ``,
+	"null-result":      `{"result":null}`,
+	"model-badvalue":   `{"result":{"model":{"k":[1]}}}`,
+	"model-objvalue":   `{"result":{"model":{"a":1,"k":{"x":1}}}}`,
+	"coll-delete":      `{"result":{"collection":[1,{"action":"delete"}]}}`,
+	"model-array":      `{"result":{"model":[1]}}`,
+	"coll-object":      `{"result":{"collection":{"a":1}}}`,
+	"model-emptyrid":   `{"result":{"model":{"k":{"rid":""}}}}`,
+	"model-wildrid":    `{"result":{"model":{"k":{"rid":"a.>"}}}}`,
+	"error-nocode":     `{"error":{"message":"x"}}`,
+	"error-string":     `{"error":"boom"}`,
+	"get-string":       `{"result":{"get":"yes"}}`,
+	"result-array":     `{"result":[1]}`,
+	"resource-badrid":  `{"resource":{"rid":"a..b"}}`,
+	"resource-empty":   `{"resource":{"rid":""}}`,
+	"resource-wild":    `{"resource":{"rid":"a.*"}}`,
+	"resource-num":     `{"resource":{"rid":12}}`,
+	"events-notarray":  `{"result":{"events":{}}}`,
+	"events-badevent":  `{"result":{"events":[{"event":"add","data":{"idx":99,"value":1}}]}}`,
+	"events-badchange": `{"result":{"events":[{"event":"change","data":{"values":{"a1":"changed","zbad":[1]}}}]}}`,
+	"events-and-model": `{"result":{"events":[],"model":{"a":1}}}`,
+	"meta-string":      `{"result":{"get":true},"meta":"x"}`,
+	"meta-status-str":  `{"result":{"get":true},"meta":{"status":"404"}}`,
+	"meta-header-str":  `{"result":{"get":true},"meta":{"header":"x"}}`,
 }
 
 // replyMalformed: the request types for which a reply shape is malformed
